@@ -25,8 +25,8 @@ def _post(ctx):
 CFG = dict(
     prop="C18", level="proof", harness="c18",
     props_files=["theories/Props/C18.v"], corr_file="theories/Corr/C18.v", corr_module="Corr.C18",
-    groups={"lint": True, "fix": True, "fixstdin": True},
-    show_fn={"lint": "model_lint", "fix": "model_fix", "fixstdin": "model_fixstdin"},
+    groups={"lint": True, "fix": True, "fixstdin": True, "stdinflag": False},
+    show_fn={"lint": "model_lint", "fix": "model_fix", "fixstdin": "model_fixstdin", "stdinflag": "model_stdinflag"},
     pre=_pre, post=_post, shard=150,
     design_ref="DESIGN.md 6.18",
     technique="Coq proof (decision logic of run_lint / run_lint_stdin / run_fix / run_fix_stdin and the three formatters over abstract "
@@ -39,7 +39,7 @@ CFG = dict(
                "same violations to the formatter as Linter::lint_string is established by the correspondence runs only; the text of the "
                "printed lines is abstracted to (line, column, rule code); no violation with warning=true exists in today's code.",
     rule="generated contents (1-3 files of 1-3 statements drawn from fixable / unfixable / clean / unparsable / malformed-noqa pools, or a "
-         "rule-fixture snippet; no '-- sqlfluff' lines: C03) x 8 rule selections x --parsing-errors on/off: `sqruff lint` in formats "
+         "rule-fixture snippet; no '-- sqlfluff' lines: C03) x 8 rule selections x 5 dialects x --parsing-errors on/off (the second file in a sub-directory): `sqruff lint` in formats "
          "{human, github-annotation-native, json} x modes {directory, path, stdin} parsed to (line, col, rule) multisets + exit status, "
          "`sqruff fix --force` on a directory and on a path (exit status, mtimes, contents) and `sqruff fix -` (stdout, exit status), each "
          "compared with the Gallina model fed with Linter::lint_string's violations / fix_string for the same content, and directly with "
